@@ -53,7 +53,7 @@ def run_batch(args, timeout):
     return scripts, traces, problems, unknown
 
 
-def model(traces, fuel=20000):
+def model(traces, fuel=2500):  # accepted traces need < 100 expansions per event; more only on a leaking tree
     inp = "".join("T %s %s\n" % (n, " ".join(toks)) for n, toks in traces.items())
     p = subprocess.run([os.path.join(C.BIN, "c18fsm_model"), str(fuel)], input=inp.encode(),
                        stdout=subprocess.PIPE, timeout=3000)
@@ -221,7 +221,7 @@ def leg(run):
     stats, samples = {}, []
     if os.path.exists(CORPUS):
         one_leg(run, ["-file", CORPUS, "-jobs", "4"], stats, samples)
-    plan = ([("cycles", 70, 6), ("burst", 30, 4), ("timeout", 6, 3), ("cycleslong", 3, 3)] if quick else
+    plan = ([("cycles", 64, 8), ("burst", 24, 4), ("timeout", 6, 3), ("cycleslong", 2, 2)] if quick else
             [("cycles", 2400, 6), ("burst", 1200, 4), ("timeout", 60, 2), ("cycleslong", 120, 4)])
     jobs = []
     for k, (fam, n, j) in enumerate(plan):
@@ -249,7 +249,7 @@ def leg(run):
         "distinct_traces": distinct,
         "traces_accepted": stats.get("accepted", 0),
         "snapshots_compared": stats.get("snaps", 0),
-        "snapshots_with_call_blocked_in_broadcast": stats.get("snaps", 0) - stats.get("quiet_snaps", 0),
+        "snapshots_after_settle": stats.get("quiet_snaps", 0),
         "subscriptions_made": stats.get("subscriptions", 0),
         "events": stats.get("events", 0),
         "op_distribution": stats.get("op_distribution", {}),
@@ -261,7 +261,7 @@ def leg(run):
         "rule": "scenario = PRNG script for a sequential director on one finitestate.Machine (subscribe / cancel cycles, "
                 "1-4 subscriptions open at a time, consumers absent / reading k values then stopping / slow / draining, "
                 "bursts of legal, refused and SetState calls; family timeout lets one broadcast run into its 5 s timer and "
-                "cancels the blocking subscribers meanwhile; cycleslong = 50-90 cycles), one child process each; snapshot = "
+                "cancels the blocking subscribers meanwhile; cycleslong = 40-80 cycles), one child process each; snapshot = "
                 "G: token after every action; soak = 12 concurrent subscriber workers, checkpoints with everything cancelled",
         "wall_s": round(time.time() - t0, 1),
     })
